@@ -17,8 +17,8 @@ from check import Result  # noqa: E402
 IR_RUNS = {
     "C01": {"quick": [("MC", "conn", 2), ("MC", "contain", 3), ("MC", "body", 2), ("SUITE", "tests", 0)],
             "thorough": [("MC", "conn", 3), ("MC", "contain", 4), ("MC", "body", 3), ("MC", "mirror", 2), ("SUITE", "tests", 0)]},
-    "C02": {"quick": [("MC", "mirror", 1), ("MC", "mirror_add", 2), ("MC", "conn", 2), ("SUITE", "tests", 0)],
-            "thorough": [("MC", "mirror", 2), ("MC", "mirror_add", 3), ("MC", "conn", 3), ("SUITE", "tests", 0)]},
+    "C02": {"quick": [("MC", "mirror", 1), ("MC", "mirror_add", 2), ("MC", "conn", 2), ("MC", "clone_closed", 1), ("SUITE", "tests", 0)],
+            "thorough": [("MC", "mirror", 2), ("MC", "mirror_add", 3), ("MC", "conn", 3), ("MC", "clone_closed", 2), ("SUITE", "tests", 0)]},
     "C14": {"quick": [("MC", "conn", 2), ("MC", "mirror", 1), ("MC", "mirror_add", 2), ("MC", "naming", 2),
                       ("MC", "naming_edif", 2), ("MC", "naming_two", 1)],
             "thorough": [("MC", "conn", 3), ("MC", "mirror", 2), ("MC", "mirror_add", 3), ("MC", "body", 3), ("MC", "contain", 4),
@@ -40,12 +40,12 @@ IR_RUNS.update({
             "thorough": [("MC", "clone", 5), ("MC", "clone", 10, 60), ("MC", "clone_top", 3), ("MC", "clone_edit", 1)]},
     "C06": {"quick": [("MC", "vlog_read", 2), ("MC", "vlog_read", 10, 14), ("MC", "vlog_decl", 0), ("MC", "vlog_assign", 1), ("FILES", "vlog_file", 6000)],
             "thorough": [("MC", "vlog_read", 3), ("MC", "vlog_read", 12, 300), ("MC", "vlog_decl", 0), ("MC", "vlog_assign", 3), ("FILES", "vlog_file", 30000)]},
-    "C04": {"quick": [("MC", "vlog_rt", 2), ("MC", "vlog_rt", 10, 14), ("MC", "vlog_decl", 0), ("MC", "vlog_assign", 1), ("FILES", "vlog_rt", 6000)],
-            "thorough": [("MC", "vlog_rt", 3), ("MC", "vlog_rt", 12, 300), ("MC", "vlog_decl", 0), ("MC", "vlog_assign", 3), ("FILES", "vlog_rt", 30000)]},
+    "C04": {"quick": [("MC", "vlog_rt", 2), ("MC", "vlog_rt", 10, 14), ("MC", "vlog_decl", 0), ("MC", "vlog_unused", 0), ("MC", "vlog_assign", 1), ("FILES", "vlog_rt", 6000)],
+            "thorough": [("MC", "vlog_rt", 3), ("MC", "vlog_rt", 12, 300), ("MC", "vlog_decl", 0), ("MC", "vlog_unused", 0), ("MC", "vlog_assign", 3), ("FILES", "vlog_rt", 30000)]},
     "C15": {"quick": [("MC", "c15_edif", 0), ("MC", "c15_vlog", 0), ("MC", "c15_eblif", 0)],
             "thorough": [("MC", "c15_edif", 0), ("MC", "c15_vlog", 0), ("MC", "c15_eblif", 0)]},
-    "C16": {"quick": [("MC", "c16_edif_arr", 0), ("MC", "c16_edif", 2), ("MC", "c16_edif3", 2), ("MC", "c16_vlog", 1), ("MC", "c16_eblif", 2)],
-            "thorough": [("MC", "c16_edif_arr", 0), ("MC", "c16_edif", 3), ("MC", "c16_vlog", 2), ("MC", "c16_eblif", 3), ("MC", "c16_edif", 12, 300)]},
+    "C16": {"quick": [("MC", "c16_edif_arr", 0), ("MC", "c16_eblif_noname", 1), ("MC", "c16_edif", 2), ("MC", "c16_edif3", 2), ("MC", "c16_vlog", 1), ("MC", "c16_eblif", 2)],
+            "thorough": [("MC", "c16_edif_arr", 0), ("MC", "c16_eblif_noname", 2), ("MC", "c16_edif", 3), ("MC", "c16_vlog", 2), ("MC", "c16_eblif", 3), ("MC", "c16_edif", 12, 300)]},
     "C18": {"quick": [("MC", "eblif_read", 3), ("MC", "eblif_rt", 2), ("MC", "eblif_latch", 2), ("MC", "eblif_latch_rt", 3),
                       ("MC", "eblif_read", 10, 14), ("FILES", "eblif_file", 9000), ("FILES", "eblif_rt", 9000)],
             "thorough": [("MC", "eblif_read", 4), ("MC", "eblif_rt", 3), ("MC", "eblif_latch", 4), ("MC", "eblif_latch_rt", 4),
@@ -56,13 +56,13 @@ IR_RUNS.update({
     "C03": {"quick": [("MC", "edif_rt", 3), ("MC", "edif_rt2", 2), ("MC", "edif_rt", 10, 40), ("MC", "edif_rt_br", 1), ("MC", "edif_reexport", 0), ("FILES", "edif_rt", 4000)],
             "thorough": [("MC", "edif_rt", 4), ("MC", "edif_rt1", 4), ("MC", "edif_rt", 12, 1500), ("MC", "edif_rt_br", 2), ("MC", "edif_reexport", 0), ("FILES", "edif_rt", 40000)]},
     "C20": {"quick": [("MC", "compare", 0)], "thorough": [("MC", "compare", 0)]},
-    "C13": {"quick": [("MC", "query", 1), ("MC", "query_edif", 0)], "thorough": [("MC", "query", 30), ("MC", "query_edif", 0)]},
-    "C08": {"quick": [("MC", "xf", 3), ("MC", "xf_port", 4), ("MC", "xf", 12, 40), ("MC", "xf_late", 12, 40)],
-            "thorough": [("MC", "xf", 5), ("MC", "xf_port", 11), ("MC", "xf", 14, 1500), ("MC", "xf_late_port", 4), ("MC", "xf_late", 14, 600)]},
+    "C13": {"quick": [("MC", "query", 1), ("MC", "query_edif", 0), ("MC", "query_nons", 0)], "thorough": [("MC", "query", 30), ("MC", "query_edif", 0), ("MC", "query_nons", 0)]},
+    "C08": {"quick": [("MC", "xf", 3), ("MC", "xf_port", 4), ("MC", "xf", 12, 40), ("MC", "xf_late", 12, 40), ("MC", "xf_port2", 12, 40)],
+            "thorough": [("MC", "xf", 5), ("MC", "xf_port", 11), ("MC", "xf", 14, 1500), ("MC", "xf_late_port", 4), ("MC", "xf_late", 14, 600), ("MC", "xf_port2", 14, 600)]},
     "C09": {"quick": [("MC", "xf", 2), ("MC", "xf_port", 6), ("MC", "xf", 12, 30)],
             "thorough": [("MC", "xf", 5), ("MC", "xf_port", 11), ("MC", "xf", 14, 1500), ("MC", "xf_late", 14, 600)]},
-    "C12": {"quick": [("MC", "hier12", 3), ("MC", "hier12", 12, 60), ("MC", "hier12_pos", 12, 60)],
-            "thorough": [("MC", "hier12", 5), ("MC", "hier12", 14, 1000), ("MC", "hier12_pos", 4), ("MC", "hier12_pos", 14, 1000)]},
+    "C12": {"quick": [("MC", "hier12", 3), ("MC", "hier12", 12, 60), ("MC", "hier12_pos", 12, 60), ("MC", "hier12_ft", 3), ("MC", "hier12_walk", 10, 30)],
+            "thorough": [("MC", "hier12", 5), ("MC", "hier12", 14, 1000), ("MC", "hier12_pos", 4), ("MC", "hier12_pos", 14, 1000), ("MC", "hier12_ft", 5), ("MC", "hier12_walk", 14, 400)]},
 })
 IR_RULE = {
     "C15": "for one design per format the valid rendering and EVERY single corruption of it (truncation before each token, "
